@@ -121,7 +121,7 @@ fn run_case(rep: &mut Report, args: &Args, cs: u64, sink_kind: &str) {
                     1 => cap.saturating_sub(8),
                     _ => r.range(0, (cap / 4).max(2) as u64) as usize,
                 };
-                let key = format!("t{}.s{}.{}", t, n, "p".repeat(pad));
+                let key = if n % 4 == 0 { format!("t{}.s{}.{}", t, n, "ж".repeat(pad / 2)) } else { format!("t{}.s{}.{}", t, n, "p".repeat(pad)) };
                 let res = panics::guard(|| client.gauge(&key, n as u64));
                 match res {
                     Ok(Ok(m)) => {
